@@ -78,7 +78,8 @@ Lemma qi_input : forall c L q hist low,
                   q_first_incorrect q' = NULL /\ (st = Confirmed \/ st = Predicted) /\
                   (st = Confirmed -> c < hlen hist /\ v = hval hist c) /\
                   (st = Predicted -> hlen hist <= c) /\
-                  q_delay q' = q_delay q /\ q_last_user q' = q_last_user q.
+                  q_delay q' = q_delay q /\ q_last_user q' = q_last_user q /\
+                  (c < hlen hist -> pi_frame (q_pred q) = NULL -> pi_frame (q_pred q') = NULL).
 Proof.
   intros c L q hist low [I P1 P2 P4 Rq [Lw1 Lw2] Cf] Hfi Hc HL.
   destruct (ri_low _ _ _ I) as (L0 & L1 & L2). pose proof (hlen_nonneg hist) as Hnn.
@@ -87,7 +88,7 @@ Proof.
     + assert (Hf : low <= c < hlen hist) by lia.
       rewrite (input_confirmed predict q hist low c I Hfi P1 Hf).
       eexists; eexists; eexists. split; [reflexivity|].
-      split; [|repeat split; auto; try discriminate; try (intros; discriminate)].
+      split; [|repeat split; auto; try discriminate; try (intros; discriminate); try (intros; cbn [set_requested_pred set_last_requested q_pred pi_frame] in *; unfold NULL in *; lia)].
       constructor; cbn [set_last_requested q_pred q_first_incorrect q_last_requested].
       * eapply RInv_ext; [exact I|reflexivity..].
       * left. exact P1.
@@ -98,7 +99,7 @@ Proof.
       * exact Cf.
     + rewrite (input_predict_start predict q hist low c I Hfi P1 Hge Hc).
       eexists; eexists; eexists. split; [reflexivity|].
-      split; [|repeat split; auto; try discriminate; try (intros; discriminate)].
+      split; [|repeat split; auto; try discriminate; try (intros; discriminate); try (intros; cbn [set_requested_pred set_last_requested q_pred pi_frame] in *; unfold NULL in *; lia)].
       constructor; cbn [set_requested_pred q_pred q_first_incorrect q_last_requested pi_frame pi_val].
       * eapply RInv_ext; [exact I|reflexivity..].
       * right. reflexivity.
@@ -113,7 +114,7 @@ Proof.
     rewrite (input_predicting predict q hist low c I Hfi P1 Htl).
     eexists; eexists; eexists. split; [reflexivity|].
     assert (Hge : hlen hist <= c) by (destruct Rq as [Rq|Rq]; unfold NULL in *; lia).
-    split; [|repeat split; auto; try discriminate; try (intros; discriminate)].
+    split; [|repeat split; auto; try discriminate; try (intros; discriminate); try (intros; cbn [set_requested_pred set_last_requested q_pred pi_frame] in *; unfold NULL in *; lia)].
     constructor; cbn [set_last_requested q_pred q_first_incorrect q_last_requested].
     + eapply RInv_ext; [exact I|reflexivity..].
     + right. exact P1.
@@ -133,22 +134,26 @@ Definition all_clean (qs : list queue) : Prop := Forall (fun q => q_first_incorr
 Definition same_user (qs qs' : list queue) : Prop :=
   Forall2 (fun q q' => q_delay q' = q_delay q /\ q_last_user q' = q_last_user q) qs qs'.
 Definition connected (st : list cstat) : Prop := Forall (fun s => cs_disc s = false) st.
+(* a queue whose read stays inside its history keeps an idle prediction slot *)
+Definition keeps_null (c : Z) (qs : list queue) (gs : list ghost) (qs' : list queue) : Prop :=
+  forall h q gh q', nth_error qs h = Some q -> nth_error gs h = Some gh -> nth_error qs' h = Some q' ->
+    c < hlen (fst gh) -> pi_frame (q_pred q) = NULL -> pi_frame (q_pred q') = NULL.
 
 Lemma sync_inputs_go_ok : forall st qs gs c L,
   QsI c L qs gs -> all_clean qs -> length st = length qs -> connected st -> 0 <= c -> L <= c ->
   exists qs' ins, sync_inputs_go predict c qs st = Ok (qs', ins) /\ QsI (c + 1) L qs' gs /\
     all_clean qs' /\ length ins = length qs /\
-    Forall (fun i => snd i = Confirmed \/ snd i = Predicted) ins /\ same_user qs qs'.
+    Forall (fun i => snd i = Confirmed \/ snd i = Predicted) ins /\ same_user qs qs' /\ keeps_null c qs gs qs'.
 Proof.
   induction st as [|s st IH]; intros qs gs c L HQ Hcl Hlen Hcon Hc HL.
   - destruct qs; [|discriminate]. inversion HQ; subst.
-    exists [], []. cbn. repeat split; constructor.
+    exists [], []. cbn. repeat split; try constructor. intros [|h] ? ? ? A; discriminate A.
   - destruct qs as [|q qs]; [discriminate|]. inversion HQ as [|? g ? gs' Hq HQ']; subst.
     inversion Hcl as [|? ? Hq0 Hcl']; subst. inversion Hcon as [|? ? Hs Hcon']; subst.
     cbn [sync_inputs_go]. rewrite Hs. cbn [andb].
-    destruct (qi_input c L q (fst g) (snd g) Hq Hq0 Hc HL) as (q' & v & stt & E & HQ1 & Hfi1 & Hst & _ & _ & Hd & Hu).
+    destruct (qi_input c L q (fst g) (snd g) Hq Hq0 Hc HL) as (q' & v & stt & E & HQ1 & Hfi1 & Hst & _ & _ & Hd & Hu & Hkn).
     rewrite E. cbn [res_bind].
-    destruct (IH qs gs' c L HQ' Hcl' ltac:(cbn in Hlen; lia) Hcon' Hc HL) as (qs' & ins & E' & HQ2 & Hcl2 & Hl2 & Hst2 & Hsu).
+    destruct (IH qs gs' c L HQ' Hcl' ltac:(cbn in Hlen; lia) Hcon' Hc HL) as (qs' & ins & E' & HQ2 & Hcl2 & Hl2 & Hst2 & Hsu & Hkn2).
     rewrite E'. cbn [res_bind].
     exists (q' :: qs'), ((v, stt) :: ins). split; [reflexivity|].
     repeat split.
@@ -157,6 +162,9 @@ Proof.
     + cbn. lia.
     + constructor; [exact Hst|exact Hst2].
     + constructor; [split; assumption|exact Hsu].
+    + intros [|h] q0 gh q0' A B C; cbn [nth_error] in A, B, C.
+      * injection A as <-. injection B as <-. injection C as <-. exact Hkn.
+      * exact (Hkn2 h q0 gh q0' A B C).
 Qed.
 
 End WithPredictor.
@@ -1284,14 +1292,19 @@ Lemma resim_progress : forall n i p gs L mc o,
     QsI (s_current (ps_sync p')) L (s_queues (ps_sync p')) gs /\ all_clean (s_queues (ps_sync p')) /\
     same_user (s_queues (ps_sync p)) (s_queues (ps_sync p')) /\
     s_last_confirmed (ps_sync p') = s_last_confirmed (ps_sync p) /\
-    ps_status p' = ps_status p.
+    ps_status p' = ps_status p /\
+    s_current (ps_sync p') = s_current (ps_sync p) + Z.of_nat n /\
+    (forall h q gh q', nth_error (s_queues (ps_sync p)) h = Some q -> nth_error gs h = Some gh ->
+       nth_error (s_queues (ps_sync p')) h = Some q' -> s_current (ps_sync p') <= hlen (fst gh) ->
+       pi_frame (q_pred q) = NULL -> pi_frame (q_pred q') = NULL).
 Proof.
   induction n as [|n IH]; intros i p gs L mc o Hsp Hcon Hlen HQ Hcl Hc HL.
   - cbn [resim_go]. exists p, o. split; [reflexivity|]. split; [exact HQ|]. split; [exact Hcl|].
-    split; [apply same_user_refl|]. split; reflexivity.
+    split; [apply same_user_refl|]. split; [reflexivity|]. split; [reflexivity|]. split; [cbn; lia|].
+    intros h q gh q' A _ B _ Hn. rewrite A in B. injection B as <-. exact Hn.
   - cbn [resim_go]. unfold synchronized_inputs.
     destruct (sync_inputs_go_ok predict (ps_status p) (s_queues (ps_sync p)) gs (s_current (ps_sync p)) L HQ Hcl Hlen Hcon Hc HL)
-      as (qs' & ins & E & HQ' & Hcl' & Hl' & _ & Hsu).
+      as (qs' & ins & E & HQ' & Hcl' & Hl' & _ & Hsu & Hkn).
     rewrite E. cbn [res_bind]. rewrite Hsp.
     set (s1 := with_queues (ps_sync p) qs').
     assert (Hsave : exists s2 o2, (if 0 <? i then res_bind (save_current_state s1) (fun '(s2, r) => Ok (s2, add_req o r)) else Ok (s1, o)) = Ok (s2, o2) /\
@@ -1303,7 +1316,7 @@ Proof.
       - exists s1, o. split; [reflexivity|]. repeat split. }
     destruct Hsave as (s2 & o2 & Es & Hq2 & Hc2 & HL2). rewrite Es. cbn [res_bind].
     set (p1 := with_sync p (advance_frame s2)).
-    destruct (IH (i + 1) p1 gs L mc (add_req o2 (RAdvance ins))) as (p' & o' & E' & A1 & A2 & A3 & A4 & A5).
+    destruct (IH (i + 1) p1 gs L mc (add_req o2 (RAdvance ins))) as (p' & o' & E' & A1 & A2 & A3 & A4 & A5 & A6 & A7).
     + exact Hsp.
     + exact Hcon.
     + subst p1. cbn [with_sync ps_status ps_sync advance_frame with_current s_queues]. rewrite Hq2.
@@ -1313,10 +1326,16 @@ Proof.
     + subst p1. cbn [with_sync ps_sync advance_frame with_current s_current]. lia.
     + subst p1. cbn [with_sync ps_sync advance_frame with_current s_current]. lia.
     + exists p', o'. split; [exact E'|].
-      subst p1. cbn [with_sync ps_sync ps_status advance_frame with_current s_queues s_last_confirmed] in A3, A4, A5.
+      subst p1. cbn [with_sync ps_sync ps_status advance_frame with_current s_queues s_last_confirmed s_current] in A3, A4, A5, A6, A7.
       split; [exact A1|]. split; [exact A2|].
       split; [eapply same_user_trans; [exact Hsu|rewrite Hq2 in A3; exact A3]|].
-      split; [rewrite A4; exact HL2|exact A5].
+      split; [rewrite A4; exact HL2|]. split; [exact A5|]. split; [lia|].
+      intros h q gh q' B1 B2 B3 B4 B5. rewrite Hq2 in A7.
+      assert (exists q1, nth_error qs' h = Some q1) as (q1 & B6).
+      { destruct (nth_error qs' h) eqn:E1; [eauto|]. apply nth_error_None in E1.
+        pose proof (QsI_length _ _ _ _ HQ'). assert (nth_error gs h <> None) as B7 by congruence.
+        apply nth_error_Some in B7. lia. }
+      apply (A7 h q1 gh q' B6 B2 B3 B4). apply (Hkn h q gh q1 B1 B2 B6); [lia|exact B5].
 Qed.
 
 End Progress.
@@ -1356,7 +1375,9 @@ Lemma adjust_progress : forall p gs L fi mc o g w hi,
     QsI (s_current (ps_sync p)) L (s_queues (ps_sync p')) gs /\ all_clean (s_queues (ps_sync p')) /\
     same_user (s_queues (ps_sync p)) (s_queues (ps_sync p')) /\
     s_last_confirmed (ps_sync p') = s_last_confirmed (ps_sync p) /\ ps_status p' = ps_status p /\
-    s_current (ps_sync p') = s_current (ps_sync p).
+    s_current (ps_sync p') = s_current (ps_sync p) /\
+    (forall h gh q', nth_error gs h = Some gh -> nth_error (s_queues (ps_sync p')) h = Some q' ->
+       s_current (ps_sync p) <= hlen (fst gh) -> pi_frame (q_pred q') = NULL).
 Proof.
   intros p gs L fi mc o g w hi Hsp Hcon Hlen HQ HLfi Hfic HL Hwin Hw Hmp Hgf Hhi Hcells.
   set (c := s_current (ps_sync p)) in *.
@@ -1364,7 +1385,7 @@ Proof.
   destruct (load_ok w (Z.max 0 (c - w)) (c - 1) (ps_sync p) g fi Hcn Hw Hgf ltac:(lia) ltac:(lia) Hfic Hwin)
     as (s1 & g1 & El & _ & Hs1 & _ & _ & _).
   set (p1 := with_sync p (reset_all s1)).
-  destruct (resim_progress predict (Z.to_nat (c - fi)) 0 p1 gs L mc (add_req o (RLoad fi))) as (p2 & o2 & Er & A1 & A2 & A3 & A4 & A5).
+  destruct (resim_progress predict (Z.to_nat (c - fi)) 0 p1 gs L mc (add_req o (RLoad fi))) as (p2 & o2 & Er & A1 & A2 & A3 & A4 & A5 & _ & A7).
   - exact Hsp.
   - exact Hcon.
   - subst p1. rewrite Hs1. cbn [with_sync ps_status ps_sync reset_all with_queues s_queues with_current]. rewrite map_length. exact Hlen.
@@ -1379,11 +1400,18 @@ Proof.
     exists p2, o2. unfold adjust_gamestate. rewrite Hsp. fold c.
     assert ((fi <? fi) = false) as -> by lia. rewrite El. cbn [res_bind]. fold p1. rewrite Er. cbn [res_bind].
     rewrite Hc2, Z.eqb_refl. cbn [negb]. split; [reflexivity|].
-    subst p1. rewrite Hs1 in A3, A4, A5. cbn [with_sync ps_sync ps_status reset_all with_queues s_queues s_last_confirmed with_current] in A3, A4, A5.
+    subst p1. rewrite Hs1 in A3, A4, A5, A7. cbn [with_sync ps_sync ps_status reset_all with_queues s_queues s_last_confirmed with_current] in A3, A4, A5, A7.
     rewrite Hc2 in A1.
     split; [exact A1|]. split; [exact A2|].
     split; [eapply same_user_trans; [apply same_user_reset|exact A3]|].
-    split; [exact A4|]. split; [exact A5|first [exact Hc2|reflexivity]].
+    split; [exact A4|]. split; [exact A5|]. split; [first [exact Hc2|reflexivity]|].
+    intros h gh q' B1 B2 B3.
+    assert (exists q, nth_error (s_queues (ps_sync p)) h = Some q) as (q & B4).
+    { destruct (nth_error (s_queues (ps_sync p)) h) eqn:E1; [eauto|]. apply nth_error_None in E1.
+      pose proof (QsI_length _ _ _ _ HQ). assert (nth_error gs h <> None) as B7 by congruence.
+      apply nth_error_Some in B7. lia. }
+    apply (A7 h (reset_prediction q) gh q'); [rewrite nth_error_map, B4; reflexivity|exact B1|exact B2|rewrite Hc2; exact B3|reflexivity].
+
 Qed.
 
 End Progress2.
@@ -1558,32 +1586,3 @@ Proof. induction l as [|x l IH]; intros [|i] d H; cbn in *; try lia; auto. apply
 
 (* ================= the session invariant for runs without disconnects ================= *)
 (* kind-specific facts about a player's queue *)
-Definition KI (c d : Z) (k : pkind) (q : queue) (hist : list Z) : Prop :=
-  match k with
-  | KLocal => q_delay q = d /\
-              ((hist = [] /\ q_last_user q = NULL /\ c = 0 /\ pi_frame (q_pred q) = NULL) \/
-               (hlen hist = c + d /\ q_last_user q = c - 1 /\ 1 <= c) \/
-               (hlen hist = c + d + 1 /\ q_last_user q = c))
-  | KRemote _ => q_delay q = 0 /\ q_last_user q = hlen hist - 1
-  | KSpectator _ => False
-  end.
-
-Record SI (w d : Z) (p : p2p) (gs : list ghost) (g : game) : Prop := {
-  si_ji : JI w p g;
-  si_w : 1 <= w;
-  si_d : 0 <= d /\ w + d + 3 <= QLEN;
-  si_run : ps_running p = true;
-  si_nospec : ps_spectators p = [];
-  si_discf : ps_disc_frame p = NULL;
-  si_n : Z.of_nat (length gs) = ps_nplayers p /\ 0 < ps_nplayers p /\ length (ps_kinds p) = length gs /\
-         length (ps_status p) = length gs;
-  si_conn : connected (ps_status p);
-  si_gossip : Forall (fun e => connected (ev_status e)) (ps_remotes p);
-  si_qs : QsI (s_current (ps_sync p)) (s_last_confirmed (ps_sync p)) (s_queues (ps_sync p)) gs;
-  si_last : Forall2 (fun st g => cs_last st = hlen (fst g) - 1) (ps_status p) gs;
-  si_frames : -1 <= s_last_confirmed (ps_sync p) <= s_current (ps_sync p) /\
-              s_current (ps_sync p) <= Z.max 0 (s_last_confirmed (ps_sync p)) + w;
-  si_kinds : forall h k q gh, nth_error (ps_kinds p) h = Some k -> nth_error (s_queues (ps_sync p)) h = Some q ->
-             nth_error gs h = Some gh -> KI (s_current (ps_sync p)) d k q (fst gh);
-  si_pending : forall h pi, assoc_get (ps_pending p) h = Some pi -> pi_frame pi = s_current (ps_sync p);
-}.
